@@ -10,6 +10,7 @@ pub mod fuse;
 pub mod mapdrv;
 pub mod plan;
 pub mod props;
+pub mod states;
 pub mod tabledrv;
 pub mod validate;
 
